@@ -297,6 +297,21 @@ func GenWorldCfg(g *Rng, opt GenOpts) (World, map[string]any) {
 			w.Env["VERIF_DEP"] = "envdep"
 			cfg["depends"] = append(cfg["depends"].([]any), "${VERIF_DEP}")
 		}
+		if x.feat("relation_list_lengths", 0.4) {
+			// lists of three to seven names: a list built by appending one
+			// element at a time ends with spare capacity for these lengths
+			for _, k := range []string{"provides", "depends", "conflicts", "replaces", "recommends", "suggests"} {
+				if !g.Bool(0.5) {
+					continue
+				}
+				n := g.Range(3, 7)
+				l := make([]any, 0, n)
+				for i := 0; i < n; i++ {
+					l = append(l, fmt.Sprintf("%s-pkg%d", k[:4], i+1))
+				}
+				cfg[k] = l
+			}
+		}
 		emptyP := 0.3
 		if opt.SharedBias {
 			emptyP = 0.6
